@@ -1147,21 +1147,22 @@ def _balanced_end(s, open_idx):
     return -1
 
 
-def drop_capacity_hints(f):
+def drop_capacity_hints(f, ctors=("Vec",)):
     """R6: a capacity is an allocation hint and no part of the value: `Vec::with_capacity(E)` -> `Vec::new()`;
     a local that served only the hint (transitively) is dropped together with its defining `let`."""
-    head = 'Vec::with_capacity('
     names, n = set(), 0
-    while True:
-        i = f.body.find(head)
-        if i < 0:
-            break
-        e = _balanced_end(f.body, i + len(head) - 1)
-        if e < 0:
-            break
-        names |= set(re.findall(r'(?<![.\w:])([a-z_]\w*)\b(?!\s*[(:!])', f.body[i + len(head):e - 1]))
-        f.body = f.body[:i] + 'Vec::new()' + f.body[e:]
-        n += 1
+    for ctor in ctors:
+        head = ctor + '::with_capacity('
+        while True:
+            i = f.body.find(head)
+            if i < 0:
+                break
+            e = _balanced_end(f.body, i + len(head) - 1)
+            if e < 0:
+                break
+            names |= set(re.findall(r'(?<![.\w:])([a-z_]\w*)\b(?!\s*[(:!])', f.body[i + len(head):e - 1]))
+            f.body = f.body[:i] + ctor + '::new()' + f.body[e:]
+            n += 1
     if not n:
         return f
     dropped = []
@@ -1194,5 +1195,161 @@ def drop_capacity_hints(f):
             dropped.append(nm)
             changed = True
             break
-    f.rewrites.append(('R6', f'{n} x `Vec::with_capacity(..)` -> `Vec::new()` (a capacity is an allocation hint)' + (f'; hint-only locals dropped: {", ".join(dropped)}' if dropped else ''), ''))
+    f.rewrites.append(('R6', f'{n} x `with_capacity(..)` -> `new()` (a capacity is an allocation hint)' + (f'; hint-only locals dropped: {", ".join(dropped)}' if dropped else ''), ''))
+    return f
+
+
+# ====================================================================================================================
+# R14 closure lifting + hash-container iteration skeletons (general): the closure BODY stays verbatim, it becomes the
+# body of a top-level fn whose parameters are the element and the variables the closure captures; iteration over a
+# hash set / map becomes an indexed loop over an ARBITRARY duplicate-free listing of it (stub `listing`), so a proof
+# over the generated loop holds for every iteration order the runtime may choose.
+# ====================================================================================================================
+def closure_at(body, start):
+    """the closure that starts at body[start] == '|': returns (pattern, inner_text, is_block, end) where end is the index just past it"""
+    assert body[start] == '|'
+    p_end = body.index('|', start + 1)
+    pat = body[start + 1:p_end].strip()
+    k = p_end + 1
+    while body[k].isspace():
+        k += 1
+    if body[k] == '{':
+        e = match_brace(body, k)
+        return pat, body[k + 1:e], True, e + 1
+    depth, j = 0, k
+    while j < len(body):
+        c = body[j]
+        if c in '([{':
+            depth += 1
+        elif c in ')]}':
+            if depth == 0:
+                break
+            depth -= 1
+        elif c == ',' and depth == 0:
+            break
+        j += 1
+    return pat, body[k:j].strip(), False, j
+
+
+def _split_top_commas(s):
+    out, depth, cur = [], 0, ''
+    for c in s:
+        if c in '([{<':
+            depth += 1
+        elif c in ')]}>':
+            depth -= 1
+        if c == ',' and depth == 0:
+            out.append(cur.strip())
+            cur = ''
+        else:
+            cur += c
+    if cur.strip():
+        out.append(cur.strip())
+    return out
+
+
+def lift_closure(f, start, name, generics, elem_ty, src, src_kind, caps, ret_ty):
+    """R14. The closure at f.body[start] (taking one element of the hash container `src`) becomes
+         fn NAME<generics>(k_: ELEM, <captured variables that its body names, as declared in `caps`>) -> RET { <lets binding the closure's pattern>; <body verbatim> }
+       `caps`: name -> parameter declaration ('candidates: &HashMap<..>'); 'self' is passed as `this` (body: `self.` -> `this.`);
+       a capture received by reference loses the `&` the closure put in front of it. Returns (lifted Fn, call text, end index)."""
+    import copy
+    pat, inner, is_block, end = closure_at(f.body, start)
+    lets = []
+    if src_kind == 'map':
+        if not (pat.startswith('(') and pat.endswith(')')):
+            raise ExtractError(f'{f.qual}: closure over the map `{src}` with a non-pair pattern `{pat}`')
+        kp, vp = _split_top_commas(pat[1:-1])
+        lets.append(f'let {kp[1:]} = k_;' if kp.startswith('&') else f'let {kp} = &k_;')
+        if vp != '_':
+            lets.append(f'let {vp} = {src}.get(&k_).unwrap();')
+    else:
+        lets.append(f'let {pat[1:]} = k_;' if pat.startswith('&') else f'let {pat} = &k_;')
+    text = inner
+    used = []
+    for nm, decl in caps.items():
+        if re.search(r'(?<![.\w])' + re.escape(nm) + r'\b', text) or (nm == src and src_kind == 'map'):
+            used.append(nm)
+    for nm in used:
+        if nm == 'self':
+            text = re.sub(r'\bself\b', 'this', text)
+        elif '&' in caps[nm].split(':', 1)[1]:
+            text = re.sub(r'&' + re.escape(nm) + r'\b(?![.\[])', nm, text)
+    params = ', '.join([f'k_: {elem_ty}'] + [caps[nm] for nm in used])
+    args = ', '.join(['k_'] + [('self' if nm == 'self' else (nm if '&' not in caps[nm].split(':', 1)[1] or _is_ref_local(f, nm) else '&' + nm)) for nm in used])
+    g = copy.copy(f)
+    g.qual = f'{f.qual}::{{closure {name}}}'
+    g.sig = f'fn {name}{generics}({params}) -> {ret_ty}'
+    g.body = '{\n' + ' '.join(lets) + '\n' + text + '\n}'
+    g.req, g.ens, g.dec, g.attrs = [], [], None, []
+    g.rewrites = [('R14', f'closure `|{pat}| ..` of {f.qual} lifted to fn {name}({params}); body verbatim', '')]
+    g.retname = 'ret'
+    f.rewrites.append(('R14', f'closure `|{pat}| ..` lifted to fn {name}; call site passes the element and the captured variables', ''))
+    return g, f'{name}({args})', end
+
+
+def _is_ref_local(f, nm):
+    """is `nm` a reference-typed parameter of f (so it is passed as is) rather than an owned local (passed as `&nm`)?"""
+    m = re.search(r'\b' + re.escape(nm) + r'\s*:\s*&', f.sig)
+    return bool(m)
+
+
+def _receiver_start(body, dot):
+    """start index of the postfix chain `ident(.ident|(..)|[..])*` that ends right before body[dot] == '.'"""
+    i = dot - 1
+    while i >= 0:
+        ch = body[i]
+        if ch in ')]':
+            depth = 0
+            while i >= 0:
+                if body[i] in ')]':
+                    depth += 1
+                elif body[i] in '([':
+                    depth -= 1
+                    if depth == 0:
+                        break
+                i -= 1
+            i -= 1
+            continue
+        if ch.isalnum() or ch in '_.*' or ch.isspace():
+            if ch.isspace() and not re.match(r'\s*\.', body[i:]):
+                break
+            i -= 1
+            continue
+        break
+    recv = body[i + 1:dot].strip()
+    return body.index(recv, i + 1) if recv else -1
+
+
+def unoption_pred(f):
+    """R6: `RECV.is_none_or(|x| B)` -> `(match RECV { Some(x) => B, None => true })`; `.is_some_and(|x| B)` -> `.. None => false`;
+    `RECV.copied().or_else(|| E)` -> `(match RECV { Some(v_) => Some(*v_), None => E })`  (B, E verbatim)"""
+    n = 0
+    while True:
+        m = re.search(r'\.\s*(is_none_or|is_some_and)(\()', f.body)
+        if not m:
+            break
+        close = match_brace(f.body, m.start(2))
+        mi = re.match(r'\s*\|\s*(&?\w+)\s*\|\s*(.*)$', f.body[m.start(2) + 1:close], flags=re.S)
+        st = _receiver_start(f.body, m.start())
+        if not mi or st < 0:
+            break
+        recv = f.body[st:m.start()].strip()
+        dflt = 'true' if m.group(1) == 'is_none_or' else 'false'
+        f.body = f.body[:st] + f'(match {recv} {{ Some({mi.group(1)}) => {mi.group(2).strip().rstrip(",").strip()}, None => {dflt} }})' + f.body[close + 1:]
+        n += 1
+    while True:
+        m = re.search(r'\.\s*copied\(\)\s*\.\s*or_else(\()', f.body)
+        if not m:
+            break
+        close = match_brace(f.body, m.start(1))
+        mi = re.match(r'\s*\|\s*\|\s*(.*)$', f.body[m.start(1) + 1:close], flags=re.S)
+        st = _receiver_start(f.body, m.start())
+        if not mi or st < 0:
+            break
+        recv = f.body[st:m.start()].strip()
+        f.body = f.body[:st] + f'(match {recv} {{ Some(v_) => Some(*v_), None => {mi.group(1).strip().rstrip(",").strip()} }})' + f.body[close + 1:]
+        n += 1
+    if n:
+        f.rewrites.append(('R6', f'{n}x Option predicate/alternative combinator with a closure -> match (closure body verbatim)', ''))
     return f
